@@ -10,3 +10,19 @@ func (dest *Destination) VerifSpoolDepth() int64 {
 	}
 	return dest.spool.queue.Depth()
 }
+
+// VerifTuning exposes the tuning options of a destination (they have no exported accessor).
+func (dest *Destination) VerifTuning() map[string]int64 {
+	return map[string]int64{
+		"flush":                int64(dest.periodFlush / 1e6),
+		"reconn":               int64(dest.periodReConn / 1e6),
+		"connbuf":              int64(dest.connBufSize),
+		"iobuf":                int64(dest.ioBufSize),
+		"spoolbuf":             int64(dest.SpoolBufSize),
+		"spoolmaxbytesperfile": dest.SpoolMaxBytesPerFile,
+		"spoolsyncevery":       dest.SpoolSyncEvery,
+		"spoolsyncperiod":      int64(dest.SpoolSyncPeriod / 1e6),
+		"spoolsleep":           int64(dest.SpoolSleep / 1e3),
+		"unspoolsleep":         int64(dest.UnspoolSleep / 1e3),
+	}
+}
